@@ -245,6 +245,54 @@ def F13():
     return all(res)
 
 
+def F39():
+    """C10: clone()/subtree() looked outside tasks up by id in the same map as the member clones; ids are unique inside one WBS
+    only: an outside predecessor X (id 2) of member a, with a member b that also has id 2 -> the copy of a lost the link to X
+    (found while triaging F38)"""
+    w = WBS()
+    a, b = Task(1, name='a'), Task(2, name='b')
+    w // [a, b]
+    x = Task(2, name='X')
+    x >> a
+    c = w.clone()
+    ok1 = [p is x for p in c[1].predecessors] == [True] and len(c[2].successors) == 0
+    s = w.subtree(a)
+    ok2 = [p is x for p in s[1].predecessors] == [True]
+    return ok1 and ok2
+
+
+def F38():
+    """C14 / C06: an outside task linked between two members (B >> E >> T, E outside the WBS): the passes followed E back to
+    the caller's ORIGINAL B, scheduled it (input mutated) and recorded its id in the memo; the clone of B was skipped, kept
+    estimate None and the roll-up of its summary task ended in TypeError (found by a round-8 change author)"""
+    res = []
+    for fwd in (True, False):
+        w = WBS()
+        t = Task(2, name='T', estimate=8)
+        s, b = Task(10, name='S'), Task(1, name='B')
+        s // b
+        e = Task(50, name='E', start=datetime(2020, 1, 1), end=datetime(2020, 1, 5)) if fwd else \
+            Task(50, name='E', start=datetime(2030, 1, 1), end=datetime(2030, 1, 5))
+        if fwd:
+            w // [t, s]
+            b >> e
+            e >> t
+            sch = ForwardScheduler(start=datetime(2030, 1, 7))
+        else:
+            w // [s, t]
+            t >> e
+            e >> b
+            sch = BackwardScheduler(end=datetime(2030, 6, 1))
+        try:
+            sch.calc(w)
+            res.append(b.start is None and b.end is None and b.estimate is None and e.estimate is None)
+        except RuntimeError:
+            res.append(False)
+        except Exception:
+            res.append(False)
+    return all(res)
+
+
 # ---------------------------------------------------------------- C02 / C09
 def F14():
     """C02: a leaf first reached through a dependency edge ignores the predecessors of its ancestors"""
@@ -492,7 +540,7 @@ def F34c():
 
 
 ALL = [F1, F2, F3, F4, F35, F5, F6, F7, F8, F9, F10, F36, F37, F11, F11b, F11c, F13, F14, F14b, F15, F16, F17, F19, F20, F21, F22, F23, F24,
-       F25, F26, F27, F28, F30, F33, F34, F34b, F34c]
+       F25, F26, F27, F28, F30, F33, F34, F34b, F34c, F38, F39]
 
 if __name__ == '__main__':
     sel = set(sys.argv[1:])
